@@ -60,3 +60,34 @@ rustflags = ["--cfg", "rce_verif"]
 CFG
 cd "$B"
 CARGO_NET_OFFLINE=true cargo build --release --offline --bin rce_sim 2>"$B/build.log" || { tail -40 "$B/build.log" >&2; exit 2; }
+# Optional: the shipped program itself (hooks OFF), for the supplementary real-process stages.
+if [ "${VERIF_BUILD_REAL:-0}" = 1 ]; then
+  mkdir -p "$B/real/.cargo"
+  python3 - "$REPO" "$B" <<'PY'
+import sys, re, os
+repo, b = sys.argv[1], sys.argv[2]
+toml = open(os.path.join(repo, 'Cargo.toml')).read()
+toml = re.split(r'\n\[profile\.', toml)[0]
+toml += f'''
+[[bin]]
+name = "rce_real"
+path = "{repo}/src/main.rs"
+
+[workspace]
+
+[profile.release]
+opt-level = 3
+lto = false
+debug = false
+codegen-units = 16
+incremental = false
+'''
+p = os.path.join(b, 'real', 'Cargo.toml')
+if not os.path.exists(p) or open(p).read() != toml:
+    open(p, 'w').write(toml)
+PY
+  cp "$REPO/Cargo.lock" "$B/real/Cargo.lock"
+  if [ -f "$REPO/rust-toolchain" ]; then cp "$REPO/rust-toolchain" "$B/real/rust-toolchain"; fi
+  printf '[net]\noffline = true\n' > "$B/real/.cargo/config.toml"
+  ( cd "$B/real" && CARGO_NET_OFFLINE=true cargo build --release --offline --bin rce_real 2>"$B/build-real.log" ) || { tail -40 "$B/build-real.log" >&2; exit 2; }
+fi
